@@ -136,6 +136,27 @@ def main(pid, tier):
                         # detach from the file before overwriting it
                         w = NiftiWrapper(nb.Nifti1Image(np.asanyarray(w2.nii_img.dataobj).copy(), w2.nii_img.affine,
                                                         w2.nii_img.header.copy()))
+                    # one wrapper written more than once, its meta data edited in place between the
+                    # writes (a value changed, a key added): every file holds what the extension said
+                    # when that file was written
+                    img3 = nb.Nifti1Image(np.zeros(shape, dtype=np.int16), np.eye(4))
+                    img3.header.set_dim_info(slice=ext.slice_dim)
+                    ext3 = DcmMetaExtension.from_json(js)
+                    img3.header.extensions.append(ext3)
+                    w3 = NiftiWrapper(img3)
+                    for wr in range(3):
+                        path = os.path.join(tmp, 'y%d.nii%s' % (wr, '.gz' if (i + wr) % 2 else ''))
+                        w3.to_filename(path)
+                        with contextlib.redirect_stdout(io.StringIO()):
+                            back = NiftiWrapper.from_filename(path)
+                        if back.meta_ext.to_json() != w3.meta_ext.to_json():
+                            fails.append('write %d of one wrapper (meta data edited in place between the writes): the file '
+                                         'does not hold the extension as it was when written' % wr)
+                            break
+                        gc = w3.meta_ext.get_class_dict(('global', 'const'))
+                        gc['verif_added_%d' % wr] = [wr, 'x' * (wr * 7 + 1)]
+                        for k0 in list(gc)[:1]:
+                            gc[k0] = {'edited': wr}
                 except Exception as e:
                     fails.append('file round trip raised %r' % e)
             for f in fails[:1]:
